@@ -19,7 +19,23 @@ META = {
   "message lengths beyond 2 blocks + 9 bytes, outCT shapes beyond the listed ones, PRF/MGF1/DRBG output lengths beyond the listed ones",
   "constant-time behaviour of br_hmac_outCT (C08)",
  ],
- "mutants_tried": [],
+ "mutants_tried": [
+  "CAUGHT hmac_ct.c: x1 = MUX(LT(u, kl),..) -> LE(u, kl) (length field starts one byte late): outct-md5-P13-0-70-len42-43, native replay reproduces",
+  "CAUGHT hmac_ct.c: kz rounding `po + bs - 1` -> `po + bs - 2` (wrong final block exactly when the padding needs a new block): outct-md5-P13-0-70-len42-43",
+  "CAUGHT hmac_ct.c: ncount from max_len instead of min_len (bytes beyond len hashed unmasked): outct-md5-P13-0-70-len0-1 (the shape P0 [70,100] did not distinguish it because both round to the same block; that shape was widened to [70,130])",
+  "CAUGHT md5.c out(): `ptr > 56` -> `ptr >= 56` (55-byte tail padded into two blocks): hash-outnd-md5-L73-s50-59",
+  "CAUGHT sha2big.c out(): upper 64 bits of the bit length dropped: hash-carry64-sha512-L129 (L111 passes, as it must)",
+  "CAUGHT sha1.c out(): bit length truncated to 32 bits: hash-carry32-sha1-L65",
+  "CAUGHT sha2small.c update(): buffer offset taken after count was advanced: hash-outnd-sha256-L73-s60-69",
+  "CAUGHT multihash.c get_state_offset(): `+ (x >> 1)` dropped (SHA-224/SHA-256 state slots overlap their neighbours): multihash-all6-L137-s64",
+  "CAUGHT hmac.c key_init: `key_len > block` -> `>=` (block-sized key hashed): hmac-md5-K64-M20-O0",
+  "CAUGHT prf.c: A(i+1) computed from the output block instead of A(i): phash-md5-O21",
+  "CAUGHT hmac_drbg.c update(): second round uses 0x00 instead of 0x01: hmacdrbg-md5-init-gen5",
+  "CAUGHT hkdf.c produce(): T(i-1) omitted for block 2 (`x != 1` -> `x > 2`): hkdf-salt5-H16-O21",
+  "CAUGHT mgf1.c: counter encoded little-endian: mgf1-sha1-O45",
+  "CAUGHT shake.c flip(): 0x9F -> 0x1F when one byte of the block is free: shake256-L135-O141-i0-o136",
+  "NOT A FUNCTIONAL BUG (not tried): outCT loop bound from len instead of max_len changes timing only (C08)",
+ ],
 }
 
 CODEC = ["src/codec/dec32le.c", "src/codec/enc32le.c", "src/codec/dec32be.c", "src/codec/enc32be.c",
@@ -160,8 +176,8 @@ def hmac_queries():
     ct(5, 13, 60, 140, 98, 98, "quick")
     ct(5, 13, 60, 140, 99, 99, "quick")
     ct(5, 13, 60, 140, 140, 140, "quick")
-    ct(1, 0, 70, 100, 70, 70, "quick")
-    ct(1, 0, 70, 100, 100, 100, "quick")
+    ct(1, 0, 70, 130, 70, 70, "quick")
+    ct(1, 0, 70, 130, 130, 130, "quick")
     ct(1, 77, 0, 10, 0, 1, "quick")
     ct(1, 13, 33, 33, 33, 33, "quick")
     # thorough: every len
@@ -173,8 +189,8 @@ def hmac_queries():
         ct(4, 5, 0, 70, lo, hi, "thorough")
     for (lo, hi) in ranges(60, 140, 4):
         ct(5, 13, 60, 140, lo, hi, "thorough")
-    for (lo, hi) in ranges(70, 100, 6):
-        ct(1, 0, 70, 100, lo, hi, "thorough")
+    for (lo, hi) in ranges(70, 130, 6):
+        ct(1, 0, 70, 130, lo, hi, "thorough")
     for (lo, hi) in ranges(100, 130, 6):
         ct(3, 64, 100, 130, lo, hi, "thorough")
     for (lo, hi) in ranges(0, 20, 4):
